@@ -487,6 +487,12 @@ def x64_key(name, form, sym, toks, exp, got):
         return "x64:%s:%s" % (name, "operand-size-ignored" if sym in ("register", "mem-size") else sym)
     if sym == "immediate":
         return "x64:imm:truncated"
+    if sym == "mem-size" and got is not None:
+        # the same address with another access size: operand sizes are not checked against each other
+        em = [(o[2], o[5] % (1 << 32)) for o in exp[1] if o[0] == "mem"]
+        gm = [(o[2], o[5] % (1 << 32)) for o in got[1] if o[0] == "mem"]
+        if em and em == gm:
+            return "x64:operand-size:not-checked"
     if sym in ("register", "mem-size") and got is not None:
         # same register family / same address, only the size differs: the operand sizes are not checked against each other
         fam = all((e[0] != "reg") or (g[0] == "reg" and X64_FAMILY.get(e[1]) is not None and X64_FAMILY.get(e[1]) == X64_FAMILY.get(g[1]))
@@ -600,6 +606,46 @@ def gen_x64_ops(names, rng, tier):
             ops.append("x64 %s reg:xmm4 %s -" % (n, mem(sz, "rbp", -64)))
             ops.append("x64 %s %s reg:xmm4 -" % (n, mem(sz, "rbp", -64)))
         ops.append("x64 %s reg:xmm4 reg:xmm4 imm:2" % n)
+    ops += gen_x64_prefix_ops(names, rng, tier)
+    return ops
+
+
+def gen_x64_prefix_ops(names, rng, tier):
+    """systematic prefix combinations: every mnemonic x operand size (8/16/32/64: none / 66 / REX.W) x low and extended
+    (r8..r15: REX.B / REX.R) registers as base and as register operand x the addressing forms the operand type can express
+    (no index register in abi.X64Operand), so that 66, F2/F3 (popcnt/lzcnt/tzcnt) and REX appear together in every order."""
+    ops = []
+    sizes = (("byte", X64_REG8), ("word", X64_REG16), ("dword", X64_REG32), ("qword", X64_REG64))
+    all_bases = X64_REG64
+    few_bases = ["rax", "rsp", "rbp", "rdi", "r8", "r9", "r12", "r13", "r15"]
+    def mem(sz, b, d):
+        return "mem:%s:%s:%d" % (sz, b, d)
+    for n in names:
+        for sz, regs in sizes:
+            bits = {"byte": 8, "word": 16, "dword": 32, "qword": 64}[sz]
+            edge = [7, -1, (1 << (bits - 1)) - 1 if bits < 64 else (1 << 31) - 1, 300]
+            for b in all_bases:
+                ops.append("x64 %s %s - -" % (n, mem(sz, b, 4)))
+                ops.append("x64 %s %s imm:7 -" % (n, mem(sz, b, 4)))
+            for b in few_bases:
+                for d in (0, -129):
+                    ops.append("x64 %s %s - -" % (n, mem(sz, b, d)))
+                    ops.append("x64 %s %s imm:%d -" % (n, mem(sz, b, d), edge[(len(b) + (d != 0)) % len(edge)]))
+                for ri in (1, 3, 9, 14):           # cx-family, bx-family, r9-family, r14-family
+                    ops.append("x64 %s %s reg:%s -" % (n, mem(sz, b, 4), regs[ri]))
+                    ops.append("x64 %s reg:%s %s -" % (n, regs[ri], mem(sz, b, 4)))
+            # register-register in this size, low/extended in both positions
+            for a in (0, 3, 8, 13):
+                for b in (1, 9, 15):
+                    ops.append("x64 %s reg:%s reg:%s -" % (n, regs[a], regs[b]))
+            for a in (0, 9):
+                ops.append("x64 %s reg:%s - -" % (n, regs[a]))
+                ops.append("x64 %s reg:%s imm:7 -" % (n, regs[a]))
+            # widening forms: a 32/64-bit destination with a narrower memory source (movzx/movsx and F3-prefixed counts)
+            if sz in ("byte", "word", "dword"):
+                for dst in ("eax", "r9d", "rax", "r9"):
+                    for b in ("rax", "r10", "r13"):
+                        ops.append("x64 %s reg:%s %s -" % (n, dst, mem(sz, b, 0)))
     return ops
 
 
